@@ -176,6 +176,13 @@ def names_rule(ctx: Ctx) -> None:
         if rel:
             hits += 1
             ctx.fail(f"{fn.where}:{name}", f"`{name}` is read but never bound in this function (nor at module level): the statement raises NameError for every input that reaches it")
+    for fn, name, where in possibly_unbound(ctx.repo):
+        rel = owned(ctx.prop, fn.fq) or any(fnmatch.fnmatchcase(fn.fq, pat) and ctx.prop in props for pat, props in EXTRA_SCOPE.items())
+        if fn.fq == "a816.parse.parser_states:parse_keyword":
+            rel = ctx.prop in _keyword_arm_props(fn, name)
+        if rel:
+            hits += 1
+            ctx.fail(f"{fn.where}:{name}", f"`{name}` is read at `{where}` on a path that never bound it (its initialisation is missing): UnboundLocalError on that path")
     for m, attr in unbound_attributes(ctx.repo):
         rel = owned(ctx.prop, m.fq) or any(fnmatch.fnmatchcase(m.fq, pat) and ctx.prop in props for pat, props in EXTRA_SCOPE.items())
         if rel:
@@ -183,3 +190,91 @@ def names_rule(ctx: Ctx) -> None:
             ctx.fail(f"{m.where}:self.{attr}", f"`self.{attr}` is read but no method of the class (or of its bases) ever assigns it: AttributeError on the first use")
     if not hits:
         ctx.ok("a816:locals-bound", "every name and every own attribute read in this property's functions is bound")
+
+
+def possibly_unbound(repo: Repo) -> list[tuple[FunctionInfo, str, str]]:
+    """a local that is bound somewhere in the function but read at a point some path reaches without any binding: UnboundLocalError on
+    that path (e.g. the initialisation `block = b""` before a loop deleted while the loop still does `block += ...`)."""
+    from .cfg import CFG, ENTRY
+    from .core import walk_no_nested
+
+    cached = getattr(repo, "_possibly_unbound", None)
+    if cached is not None:
+        return cached
+    out: list[tuple[FunctionInfo, str, str]] = []
+    for fn in repo.all_functions():
+        try:
+            g = CFG(fn.node)
+        except Exception:  # noqa: BLE001
+            continue
+        params = {a.arg for a in fn.node.args.posonlyargs + fn.node.args.args + fn.node.args.kwonlyargs}
+        if fn.node.args.vararg:
+            params.add(fn.node.args.vararg.arg)
+        if fn.node.args.kwarg:
+            params.add(fn.node.args.kwarg.arg)
+        declared = {n_ for x in ast.walk(fn.node) if isinstance(x, (ast.Global, ast.Nonlocal)) for n_ in x.names}
+        comp_vars = {t.id for x in ast.walk(fn.node) if isinstance(x, ast.comprehension) for t in ast.walk(x.target) if isinstance(t, ast.Name)}
+        binds: dict[str, set[int]] = {}
+        loads: dict[str, list[tuple[int, ast.AST]]] = {}
+        for nid, node in g.nodes.items():
+            a = node.ast
+            if a is None:
+                continue
+            if node.kind == "for":
+                roots_store = [a.target]  # type: ignore[attr-defined]
+                roots_load = [a.iter]  # type: ignore[attr-defined]
+            elif node.kind == "handler":
+                if getattr(a, "name", None):
+                    binds.setdefault(a.name, set()).add(nid)  # type: ignore[attr-defined]
+                continue
+            elif node.kind == "test":
+                roots_store, roots_load = [a], [a]
+            elif isinstance(a, ast.With):
+                roots_store = [i.optional_vars for i in a.items if i.optional_vars is not None]
+                roots_load = [i.context_expr for i in a.items]
+            elif isinstance(a, (ast.Try, ast.If, ast.While, ast.For)):
+                continue
+            elif isinstance(a, (ast.FunctionDef, ast.AsyncFunctionDef, ast.ClassDef)):
+                binds.setdefault(a.name, set()).add(nid)
+                continue
+            else:
+                roots_store, roots_load = [a], [a]
+            for r in roots_store:
+                for x in (walk_no_nested(r) if isinstance(r, ast.stmt) else ast.walk(r)):
+                    if isinstance(x, ast.Name) and isinstance(x.ctx, (ast.Store,)):
+                        binds.setdefault(x.id, set()).add(nid)
+                    elif isinstance(x, (ast.Import, ast.ImportFrom)):
+                        for al in x.names:
+                            binds.setdefault((al.asname or al.name).split(".")[0], set()).add(nid)
+                    elif isinstance(x, (ast.FunctionDef, ast.ClassDef)) and x is not fn.node:
+                        binds.setdefault(x.name, set()).add(nid)
+                    elif isinstance(x, ast.withitem) and x.optional_vars is not None:
+                        for t in ast.walk(x.optional_vars):
+                            if isinstance(t, ast.Name):
+                                binds.setdefault(t.id, set()).add(nid)
+            for r in roots_load:
+                for x in (walk_no_nested(r) if isinstance(r, ast.stmt) else ast.walk(r)):
+                    if isinstance(x, ast.Name) and isinstance(x.ctx, ast.Load):
+                        loads.setdefault(x.id, []).append((nid, x))
+        for name, uses in loads.items():
+            if name in params or name in declared or name in comp_vars or name not in binds:
+                continue
+            bset = binds[name]
+            reach = g.reachable([ENTRY], blocked=list(bset))
+            for nid, x in uses:
+                a = g.nodes[nid].ast
+                # a statement that both binds and reads (x = x + 1, x += 1) reads first: it must itself be reached bound
+                if nid in bset:
+                    preds = [p for p, succs in g.succ.items() for m, _l in succs if m == nid]
+                    if not any(p in reach or p == ENTRY for p in preds):
+                        continue
+                    reads_own = isinstance(a, ast.AugAssign) or (isinstance(a, (ast.Assign, ast.AnnAssign)) and any(
+                        isinstance(y, ast.Name) and y.id == name and isinstance(y.ctx, ast.Load) for y in ast.walk(a.value if a.value is not None else ast.Constant(None))))
+                    if not reads_own:
+                        continue
+                elif nid not in reach:
+                    continue
+                out.append((fn, name, g.nodes[nid].text()[:50]))
+                break
+    repo._possibly_unbound = out  # type: ignore[attr-defined]
+    return out
